@@ -199,8 +199,8 @@ func c06Send(h *Handler, o c06Obs, msm7 int, label string) {
 
 func c06Run(k int, anyStart bool) {
 	t := c06StartTime()
-	h := New(verifTimeOf(c06S0+t), slog.LevelInfo)
 	verifWitness("reached")
+	h := New(verifTimeOf(c06S0+t), slog.LevelInfo)
 	var s c06State
 	for i := 0; i < k; i++ {
 		c := verifParam(c04Name("c", i), 0, 3)
@@ -236,8 +236,8 @@ func VerifC06_Illegal() {
 		c06EpochLo = 0
 	}
 	t := c06StartTime()
-	h := New(verifTimeOf(c06S0+t), slog.LevelInfo)
 	verifWitness("reached")
+	h := New(verifTimeOf(c06S0+t), slog.LevelInfo)
 	var s c06State
 	// quick: valid, illegal, valid, all of one constellation; thorough: the
 	// illegal one at any position and the valid ones of any constellation
@@ -295,6 +295,7 @@ func VerifC17_StartAnywhereInWeek() {
 func VerifC06_InductiveStep() {
 	c06S0 = c06Feb
 	verifTimeWindow(c06S0-2*c06Day, c06S0+9*c06Week)
+	verifWitness("entered")
 	h := New(verifTimeOf(c06S0+6*c06Day), slog.LevelInfo)
 	// arbitrary valid state
 	var prevWeek [4]int64
